@@ -17,7 +17,9 @@ CLASSES = ["NetworkNode", "Component", "NetworkService", "ConnectionPoint", "Lin
 RELS = ["has", "connects", "depends"]
 RULE = ("Typed graphs: exhaustive enumeration of all graphs with <=3 (quick) / <=4 (thorough) nodes over 2 classes "
         "x {no edge, 2 relations} per node pair, plus Hypothesis-generated graphs of 4-8 nodes over 5 FIM classes and "
-        "3 relations, optionally with a decoy graph re-using the NodeIDs in the same store, on both store flavours. "
+        "3 relations, optionally with a decoy graph re-using the NodeIDs in the same store and (shared store) a "
+        "neighbour graph whose twin nodes are merged into the queried graph so that edges lead out of it, on both "
+        "store flavours. "
         "On each graph every first-neighbour, two-hop and shortest-path query (all start/end nodes, relations, "
         "classes) and path-with-hops queries (all hop subsets of size<=2 on small graphs, generated ones on larger) "
         "plus the derived helpers are compared with an oracle computed from the edge list. Non-trivial: the graph "
@@ -88,8 +90,14 @@ def _case(draw):
             z = z if z < a else z + 1
             hops = draw(st.lists(st.integers(0, n - 1), max_size=3, unique=True))
             hopq.append([a, z, hops])
-    return {"fl": draw(st.sampled_from(["shared", "shared", "disjoint"])), "cls": cls, "edges": edges,
+    case = {"fl": draw(st.sampled_from(["shared", "shared", "disjoint"])), "cls": cls, "edges": edges,
             "decoy": decoy, "hopq": hopq}
+    if case["fl"] == "shared" and draw(st.integers(0, 2)) == 0:
+        # a neighbour graph holding twins of some nodes, each twin with a neighbour of its own; the twins are merged
+        # into the queried graph (merge_nodes), which leaves edges from the queried graph into the neighbour graph
+        case["bridge"] = draw(st.lists(st.tuples(st.integers(0, n - 1), st.integers(0, ncls - 1),
+                                                 st.integers(0, nrel - 1)).map(list), min_size=1, max_size=3))
+    return case
 
 
 def strategy(tier):
@@ -151,6 +159,10 @@ def _chordless(adj, p):
     return True
 
 
+def cls_i(case, i):
+    return case["cls"][i]
+
+
 # ------------------------------------------------------------------ the check
 def run_case(case):
     from fim.graph.abc_property_graph import ABCPropertyGraph
@@ -180,6 +192,19 @@ def run_case(case):
         d2 = store.graph_handle(imp, "decoy-after")
         store.load_raw(d2, {"nodes": [{"id": ids[i], "cls": CLASSES[case["cls"][i]]} for i in range(n)],
                             "edges": [{"a": i, "b": j, "rel": RELS[(r + 1) % 3]} for i, j, r in case["decoy"]]})
+
+    bridged = set()
+    if case.get("bridge") and case["fl"] == "shared":
+        nb = store.graph_handle(imp, "neighbour")
+        for k, (i, c, r) in enumerate(case["bridge"]):
+            if i >= n or i in bridged:
+                continue
+            bridged.add(i)
+            nb.add_node(node_id=ids[i], label=CLASSES[cls_i(case, i)], props={"Name": f"name{i}"})
+            nb.add_node(node_id=f"foreign{k}", label=CLASSES[c], props={"Name": f"foreign{k}"})
+            nb.add_link(node_a=ids[i], rel=RELS[r], node_b=f"foreign{k}")
+        for i in sorted(bridged):
+            g.merge_nodes(node_id=ids[i], other_graph=nb)
 
     adj = _adj(n, case["edges"])
     cls = case["cls"]
@@ -348,5 +373,7 @@ def run_case(case):
     nt = len(used_rels) >= 2 and filter_mattered
     if nt:
         labels.append("nontrivial")
+    if bridged:
+        labels.append("edges-into-neighbour-graph")
     labels.append(f"n={n}")
     return {"v": v, "nt": nt, "labels": labels}
